@@ -36,6 +36,7 @@ type lval struct {
 }
 
 type val struct {
+	let *LetSpec
 	t   string
 	lv  *lval
 	tup []val
@@ -111,6 +112,7 @@ type loopInfo struct {
 	invs    []*Clause
 	decs    []*Clause
 	frames  []*Clause
+	iter    string
 	frameObjs []string
 }
 
@@ -130,6 +132,7 @@ type frame struct {
 	names  map[string]*ssa.Alloc
 	namedVals map[string]ssa.Value
 	parent *frame
+	lets   map[string]val
 	named  []*ssa.Alloc
 }
 
